@@ -8,17 +8,24 @@
 (* specification (drift).                                                       *)
 EXTENDS SC62015Format, Json, IOUtils
 Obs == ndJsonDeserialize(IOEnv.TRACE_FILE)
-RegNames == {"BA", "I", "X", "Y", "U", "S"}
+RegSeq == <<"BA", "I", "X", "Y", "U", "S">>
+\* every component in which the two cores differ, joined with "+" (the registers by name: SameRegisters-I-X), so that a recorded
+\* divergence in one component does not hide a new one in another
+RECURSIVE RegPart(_, _)
+RegPart(r, i) == IF i > Len(RegSeq) THEN ""
+                 ELSE (IF r.py.regs[RegSeq[i]] # r.rs.regs[RegSeq[i]] THEN "-" \o RegSeq[i] ELSE "") \o RegPart(r, i + 1)
+Join(a, b) == IF a = "" THEN b ELSE IF b = "" THEN a ELSE a \o "+" \o b
 Clause(r) ==
   IF r.py.err # r.rs.err THEN "NoError"
   ELSE IF r.py.err = 1 THEN "ok"
-  ELSE IF r.py.len # r.rs.len THEN "SameLength"
-  ELSE IF r.py.regs.PC # r.rs.regs.PC THEN "SamePC"
-  ELSE IF \E n \in RegNames : r.py.regs[n] # r.rs.regs[n] THEN "SameRegisters"
-  ELSE IF r.py.regs.F % 4 # r.rs.regs.F % 4 THEN "SameFlags"      \* carry = bit 0, zero = bit 1
-  ELSE IF r.py.pw # r.rs.pw THEN "SamePower"
-  ELSE IF Len(r.memdiff) > 0 THEN "SameMemory"
-  ELSE "ok"
+  ELSE LET rp == RegPart(r, 1)
+           parts == Join(Join(Join(Join(Join(IF r.py.len # r.rs.len THEN "SameLength" ELSE "",
+                                             IF r.py.regs.PC # r.rs.regs.PC THEN "SamePC" ELSE ""),
+                                        IF rp # "" THEN "SameRegisters" \o rp ELSE ""),
+                                   IF r.py.regs.F % 4 # r.rs.regs.F % 4 THEN "SameFlags" ELSE ""),      \* carry = bit 0, zero = bit 1
+                              IF r.py.pw # r.rs.pw THEN "SamePower" ELSE ""),
+                         IF Len(r.memdiff) > 0 THEN "SameMemory" ELSE "")
+       IN IF parts = "" THEN "ok" ELSE parts
 Ref(r) == LET d == Decode(SubSeq(r.b, 1, r.n)) IN
           IF r.py.err = 1 THEN "ok" ELSE IF d.fate # "ok" THEN "RefAccept" ELSE IF d.len # r.py.len THEN "RefLength" ELSE "ok"
 BadSet == {<<Obs[k].id, Clause(Obs[k])>> : k \in {j \in 1..Len(Obs) : Clause(Obs[j]) # "ok"}}
